@@ -38,11 +38,11 @@ def compose(S, lo, hi):
 
 
 class Describer:
-    def __init__(self, facts, body, rets=None):
+    def __init__(self, facts, body, rets=None, ctx=None):
         self.f = facts
         self.b = body
         self.fn = body.fn
-        self.ev = FnEval(facts, body)
+        self.ev = FnEval(facts, body, ctx)   # ctx: success-implies-length summaries (length guards made by helpers)
         self.rets = rets   # callable fn_id -> ret descriptor (in callee terms) or None
 
     # ---- slices ----
@@ -163,7 +163,13 @@ class Describer:
             mid = self.ev.op_ival(d[3][2][1])
             if base is not None and mid is not None and mid[0] == mid[1]:
                 k = int(mid[0])
-                return compose(base, 0, k) if fld == 0 else compose(base, k, None)
+                if fld == 0:
+                    return compose(base, 0, k)
+                # close the upper half when the length of the base is known exactly at this point
+                L = self.ev.at_block(d[0]).slice_len(d[3][2][0], d[0])
+                if L is not None and L[0] == L[1] and L[0] != INF and base[0] == "p" and base[2] == 0 and base[3] is None:
+                    return compose(base, k, int(L[0]))
+                return compose(base, k, None)
         return None
 
     def local_slice(self, l, depth):
